@@ -922,6 +922,79 @@ def check_C16(ctx):
         ctx.add_stage("cli:" + ("sm" if sm else "tc"), {"inputs": k})
 
 
+def _proc_fields(pid):
+    """(state, syscall number, cpu ticks, threads, children) of a process, or None."""
+    try:
+        st = open(f"/proc/{pid}/stat").read()
+        rest = st[st.rindex(")") + 2:].split()
+        state, utime, stime, nthreads = rest[0], int(rest[11]), int(rest[12]), int(rest[17])
+        sysc = open(f"/proc/{pid}/syscall").read().split()
+        kids = []
+        for t in os.listdir(f"/proc/{pid}/task"):
+            try:
+                kids += [int(x) for x in open(f"/proc/{pid}/task/{t}/children").read().split()]
+            except OSError:
+                pass
+        return {"state": state, "syscall": sysc[0] if sysc else "?", "args": sysc[1:4], "cpu": utime + stime, "threads": nthreads, "children": kids}
+    except (OSError, ValueError, IndexError):
+        return None
+
+
+def _deadlock_snapshot(pid):
+    """A description of a parent-waits / child-blocked-on-pipe-to-parent cycle rooted at pid, or None.
+    Logical state read from /proc, not a time measurement: the single-threaded parent sleeps in wait4 (syscall 61) for a
+    child that sleeps in write (syscall 1) on a pipe whose read end the parent holds."""
+    par = _proc_fields(pid)
+    if not par or par["state"] != "S" or par["syscall"] != "61" or par["threads"] != 1 or len(par["children"]) != 1:
+        return None
+    kid_pid = par["children"][0]
+    kid = _proc_fields(kid_pid)
+    if not kid or kid["state"] != "S" or kid["syscall"] != "1" or kid["threads"] != 1:
+        return None
+    try:
+        fd = int(kid["args"][0], 16)
+        target = os.readlink(f"/proc/{kid_pid}/fd/{fd}")
+        if not target.startswith("pipe:"):
+            return None
+        parent_ends = [os.readlink(f"/proc/{pid}/fd/{f}") for f in os.listdir(f"/proc/{pid}/fd")]
+        wchar = [l for l in open(f"/proc/{kid_pid}/io").read().splitlines() if l.startswith("wchar")][0]
+    except (OSError, ValueError, IndexError):
+        return None
+    if target not in parent_ends:
+        return None
+    return {"parent": pid, "child": kid_pid, "child_cmd": open(f"/proc/{kid_pid}/comm").read().strip(), "pipe": target, "cpu": (par["cpu"], kid["cpu"]), "child_io": wchar}
+
+
+def run_cli(ctx, cmd, src_path, timeout=300):
+    """Run the logos-cli binary. If it does not finish: a wait-for cycle between the CLI and its child, observed unchanged
+    (same syscalls, no CPU time, no bytes written) over several samples, is a violation (the CLI can never emit its
+    output); any other non-termination is inconclusive (watchdog)."""
+    p = subprocess.Popen(cmd, env=env_base(), stdout=subprocess.PIPE, stderr=subprocess.STDOUT, text=True, errors="replace", start_new_session=True)
+    t0 = time.time()
+    snaps = []
+    while True:
+        try:
+            out, _ = p.communicate(timeout=3)
+            return p.returncode, out
+        except subprocess.TimeoutExpired:
+            pass
+        snap = _deadlock_snapshot(p.pid)
+        snaps = snaps + [snap] if snap is not None and (not snaps or snap == snaps[-1]) else ([snap] if snap is not None else [])
+        if len(snaps) >= 4 or time.time() - t0 > timeout:
+            try:
+                os.killpg(p.pid, signal.SIGKILL)
+            except OSError:
+                pass
+            p.communicate()
+            if len(snaps) >= 4:
+                ctx.add_violation({"property": "C17", "level": "R", "rule": "cli-deadlocked",
+                                   "detail": f"{' '.join(os.path.basename(c) for c in cmd[:1]) + ' ' + ' '.join(cmd[2:])} never finishes: logos-cli sleeps in wait4 for its child '{snaps[-1]['child_cmd']}' "
+                                             f"while the child sleeps in write() on {snaps[-1]['pipe']}, whose read end only logos-cli holds; state identical over {len(snaps)} samples "
+                                             f"(cpu ticks {snaps[-1]['cpu']}, {snaps[-1]['child_io']})", "input": open(src_path).read()[:4000]})
+                return -9, "DEADLOCK"
+            raise Inconclusive(f"watchdog ({timeout}s) fired for: {' '.join(cmd)[:200]}")
+
+
 def cli_history(ctx, exe, cdir, k, rng, steps):
     """Random write/check/format/corrupt/CRLF/delete history against a file model."""
     inp = os.path.join(cdir, f"in_{k}.rs")
@@ -947,20 +1020,20 @@ def cli_history(ctx, exe, cdir, k, rng, steps):
         before = open(outp, "rb").read() if os.path.exists(outp) else None
         mt = os.stat(outp).st_mtime_ns if before is not None else None
         if op == "write":
-            rc, o = sh([exe, inp, "--output", outp], timeout=120)
+            rc, o = run_cli(ctx, [exe, inp, "--output", outp], inp)
             now = open(outp).read() if os.path.exists(outp) else None
             if rc != 0 or now is None or norm(now) != norm(want_plain):
                 ctx.add_violation({"property": "C17", "level": "R", "rule": "write-does-not-leave-output", "detail": f"history {hist}: rc={rc}, file does not hold the generated output", "input": open(inp).read()})
                 return n
         elif op == "write_fmt":
-            rc, o = sh([exe, inp, "--output", outp, "--format"], timeout=120)
+            rc, o = run_cli(ctx, [exe, inp, "--output", outp, "--format"], inp)
             now = open(outp).read() if os.path.exists(outp) else None
             if rc != 0 or now is None or norm(now) != norm(want_fmt):
                 ctx.add_violation({"property": "C17", "level": "R", "rule": "write-does-not-leave-output", "detail": f"history {hist}: rc={rc}, file does not hold the formatted output", "input": open(inp).read()})
                 return n
         elif op in ("check", "check_fmt"):
             want = want_plain if op == "check" else want_fmt
-            rc, o = sh([exe, inp, "--output", outp, "--check"] + (["--format"] if op == "check_fmt" else []), timeout=120)
+            rc, o = run_cli(ctx, [exe, inp, "--output", outp, "--check"] + (["--format"] if op == "check_fmt" else []), inp)
             expect_ok = before is not None and norm(before.decode("utf-8", "replace")) == norm(want)
             if (rc == 0) != expect_ok:
                 ctx.add_violation({"property": "C17", "level": "R", "rule": "check-status-wrong", "detail": f"history {hist}: --check exit status {rc}, file {'equals' if expect_ok else 'differs from'} the output (modulo line endings)", "input": open(inp).read()})
@@ -997,8 +1070,8 @@ def check_C17(ctx):
 
     def gen(k):
         inp = os.path.join(cdir, f"in_{k}.rs")
-        r1 = sh([exe, inp, "--output", os.path.join(cdir, f"out_{k}.rs")], timeout=120)
-        r2 = sh([exe, inp, "--output", os.path.join(cdir, f"fmt_{k}.rs"), "--format"], timeout=120)
+        r1 = run_cli(ctx, [exe, inp, "--output", os.path.join(cdir, f"out_{k}.rs")], inp)
+        r2 = run_cli(ctx, [exe, inp, "--output", os.path.join(cdir, f"fmt_{k}.rs"), "--format"], inp)
         return k, r1, r2
     with ThreadPoolExecutor(max_workers=NCPU) as ex:
         for k, (rc1, o1), (rc2, o2) in ex.map(gen, range(n)):
@@ -1007,7 +1080,7 @@ def check_C17(ctx):
                 nontrivial += 1
             if rc1 != 0:
                 ctx.add_violation({"property": "C17", "level": "R", "rule": "cli-failed", "detail": f"logos-cli failed on a valid enum: {o1[-300:]}", "input": src})
-            if rc2 != 0:
+            if rc2 != 0 and o2 != "DEADLOCK":
                 # rustfmt refuses invalid Rust: a formatting failure means the plain output is not valid Rust
                 ctx.add_violation({"property": "C17", "level": "R", "rule": "cli-format-failed", "detail": f"logos-cli --format failed (output is not valid Rust?): {o2[-300:]}", "input": src})
     # --format output must be rustfmt(plain output)
